@@ -119,7 +119,7 @@ func c13ObjectProgram(s Src) (string, *C13Expect) {
 	n := s.Int("nstmts", 2, 8)
 	terminal := false
 	for i := 0; i < n && !terminal; i++ {
-		switch s.Int("stmt", 0, 11) {
+		switch s.Int("stmt", 0, 12) {
 		case 0, 1: // literal whose initialisers print tags
 			keys := drawKeys(s.Int("nk", 2, 6))
 			var parts []string
@@ -171,6 +171,15 @@ func c13ObjectProgram(s Src) (string, *C13Expect) {
 			k := drawKeys(4)
 			ls = append(ls, fmt.Sprintf("%s ({%s: 1, %s: 2, %s: 3, %s: 4}).nothere;", KwPrint, k[0], k[1], k[2], k[3]))
 			terminal = true
+		case 12: // an object with many properties (70 > any small internal bound), printed whole and listed
+			var parts []string
+			start := s.Int("bigstart", 0, 40)
+			for j := 0; j < 70; j++ {
+				parts = append(parts, fmt.Sprintf("p%02d: %d", (start+j*37)%97, j))
+			}
+			nobj++
+			setKeys(nobj)
+			ls = append(ls, fmt.Sprintf("%s ob%d = {%s};", KwVar, nobj, strings.Join(parts, ", ")), fmt.Sprintf("%s ob%d;", KwPrint, nobj), fmt.Sprintf("%s %s(ob%d);", KwPrint, FnKeys, nobj))
 		case 11: // a literal that names a property twice: every initialiser still runs, in source order
 			keys := drawKeys(3)
 			ntag += 4
